@@ -60,6 +60,12 @@ type msgTable struct {
 }
 
 func (t *msgTable) mk(typ MsgType, src, round, val, pr, pv int64, just []*vmsg) *vmsg {
+	return t.mkOrd(typ, src, round, val, pr, pv, just, false)
+}
+
+// mkOrd: with ordered set the justification keeps the order the (Byzantine) sender chose; honest messages are
+// normalised to a canonical order (the order an honest sender produces depends on its map iteration order).
+func (t *msgTable) mkOrd(typ MsgType, src, round, val, pr, pv int64, just []*vmsg, ordered bool) *vmsg {
 	// justification elements are flat (the wire format strips nested justifications, as createMsg does)
 	var flat []*vmsg
 	for _, j := range just {
@@ -68,8 +74,13 @@ func (t *msgTable) mk(typ MsgType, src, round, val, pr, pv int64, just []*vmsg) 
 		}
 		flat = append(flat, j)
 	}
-	sort.Slice(flat, func(i, k int) bool { return flat[i].key < flat[k].key })
+	if !ordered {
+		sort.Slice(flat, func(i, k int) bool { return flat[i].key < flat[k].key })
+	}
 	key := baseKey(typ, src, round, val, pr, pv)
+	if ordered {
+		key = "ord:" + key
+	}
 	if len(flat) > 0 {
 		var ks []string
 		for _, j := range flat {
@@ -139,7 +150,21 @@ type scenario struct {
 	late    map[int64]bool // members whose input is not available at start (delivered as an explicit event)
 	base    string
 	maprot  int
-	noForge bool // the coalition only sends validly justified messages (equivocation, selective inclusion, votes)
+	noForge bool    // the coalition only sends validly justified messages (equivocation, selective inclusion, votes)
+	prefix  []pstep // scripted real execution that leads to the (non-initial) state the search starts from
+}
+
+// msel selects a message of the pool (or of the coalition's repertoire) by its header; pr < 0 = any.
+type msel struct {
+	typ             MsgType
+	src, round, val int64
+}
+
+// pstep is one step of a scripted prefix: member m times out, or receives the selected messages in order.
+type pstep struct {
+	m       int64
+	timeout bool
+	msgs    []msel
 }
 
 func (sc *scenario) leader(round int64) int64 { return (round - 1) % int64(sc.n) }
@@ -410,6 +435,7 @@ type checker struct {
 	props                               map[string]bool // which oracles to apply ("C02","C03","C04u")
 	exits                               map[string]int
 	dbg                                 map[string]int
+	prefixState                         *gstate
 }
 
 func (c *checker) intern(s *lstate, hist []levent) *lstate {
@@ -520,13 +546,21 @@ func (c *checker) rebuild(i int32) *gstate {
 	for j := i; j > 0; j = c.nodes[j].parent {
 		path = append(path, j)
 	}
-	g := c.initial()
+	g := c.cloneState(c.prefixState)
 	for k := len(path) - 1; k >= 0; k-- {
 		nd := c.nodes[path[k]]
 		c.apply(g, int(nd.proc), c.evSeqs[nd.evs], nil)
 		g.noise = int(nd.noise)
 	}
 	return g
+}
+
+func (c *checker) cloneState(g *gstate) *gstate {
+	n := &gstate{local: append([]int32(nil), g.local...), pool: make(map[int32]bool, len(g.pool)), noise: g.noise}
+	for id := range g.pool {
+		n.pool[id] = true
+	}
+	return n
 }
 
 func (c *checker) initial() *gstate {
@@ -777,6 +811,30 @@ func (c *checker) byzMessages(g *gstate) []*vmsg {
 						for _, v := range sc.values {
 							// includes proposals that ignore the highest prepared value: they must be rejected
 							add(c.tbl.mk(MsgPrePrepare, b, r, v, 0, 0, just))
+						}
+						if !sc.noForge && hp != nil {
+							// stale prepared claim: the certificate of a ROUND-CHANGE that is NOT the highest prepared one of the
+							// set, with that ROUND-CHANGE placed first and last (the sender chooses the order of a justification)
+							for _, m := range qrc {
+								if m.pr == 0 || m.pr >= hp.pr || len(m.just) == 0 {
+									continue
+								}
+								cl2 := fmt.Sprintf("stale/r%d/n%d/%d.%d<%d", r, len(qrc), m.pr, m.pv, hp.pr)
+								if ppClass[cl2] {
+									continue
+								}
+								ppClass[cl2] = true
+								var rest []*vmsg
+								for _, o := range qrc {
+									if o != m {
+										rest = append(rest, o)
+									}
+								}
+								first := append(append([]*vmsg{m}, rest...), m.just...)
+								last := append(append(append([]*vmsg{}, rest...), m), m.just...)
+								add(c.tbl.mkOrd(MsgPrePrepare, b, r, m.pv, 0, 0, first, true))
+								add(c.tbl.mkOrd(MsgPrePrepare, b, r, m.pv, 0, 0, last, true))
+							}
 						}
 					}
 				}
@@ -1209,6 +1267,43 @@ func (c *checker) check(g *gstate, info []stepInfo, parent int32, hi int, evs []
 
 func (c *checker) explore(deadline time.Time) (exhaustive bool) {
 	g0 := c.initial()
+	for si, st := range c.sc.prefix {
+		hi := -1
+		for i, p := range c.honest {
+			if p == st.m {
+				hi = i
+			}
+		}
+		var evs []levent
+		if st.timeout {
+			evs = []levent{{'t', 0}}
+		} else {
+			avail := c.byzMessages(g0)
+			for id := range g0.pool {
+				avail = append(avail, c.tbl.all[id])
+			}
+			sort.Slice(avail, func(i, j int) bool { return avail[i].id < avail[j].id })
+			for _, sel := range st.msgs {
+				var found *vmsg
+				for _, m := range avail {
+					if m.typ == sel.typ && m.src == sel.src && m.round == sel.round && m.val == sel.val && !strings.HasPrefix(m.key, "ord:") {
+						found = m
+						break
+					}
+				}
+				if found == nil {
+					c.r.Note(fmt.Sprintf("scenario %s: scripted prefix not applicable at step %d (the tree behaves differently there); scenario skipped", c.sc.name, si))
+					return true
+				}
+				evs = append(evs, levent{'r', found.id})
+			}
+		}
+		if hi < 0 {
+			return true
+		}
+		c.applyOne(g0, hi, evs, nil)
+	}
+	c.prefixState = g0
 	c.nodes = append(c.nodes, gnode{parent: -1})
 	c.seen[c.gkey(g0)] = struct{}{}
 	frontier := []int32{0}
@@ -1316,6 +1411,60 @@ func c02scenarios() []*scenario {
 	add("n3-distinct-R2", 3, nil, in3(), nil, 2, opt{})
 	add("n4-byz-nonleader-R2-strategy", 4, []int64{3}, in4b(), v12, 2, opt{noForge: true})
 	add("n4-byz-leader2-R2-forge", 4, []int64{1}, in4b(), v12, 2, opt{parts: [][][]int{{{0, 1, 2}}, {{0}, {1, 2}}}})
+	{
+		// Staged start (reached by a scripted real execution): round 1 left exactly one member prepared on A, round 2's
+		// honest leader proposed its own value B, a second member decided B, the others timed out into round 3 whose
+		// leader is Byzantine. Every member behaves differently: three groups.
+		A, B := int64(1), int64(2)
+		pp1 := msel{MsgPrePrepare, 0, 1, A}
+		pre := func(src int64) msel { return msel{MsgPrepare, src, 1, A} }
+		rc2 := func(src int64) msel { return msel{MsgRoundChange, src, 2, 0} }
+		pp2 := msel{MsgPrePrepare, 1, 2, B}
+		p2 := func(src int64) msel { return msel{MsgPrepare, src, 2, B} }
+		c2 := func(src int64) msel { return msel{MsgCommit, src, 2, B} }
+		pfx := []pstep{
+			{m: 0, msgs: []msel{pp1}}, {m: 1, msgs: []msel{pp1}}, {m: 3, msgs: []msel{pp1}},
+			{m: 3, msgs: []msel{pre(0), pre(1), pre(3)}},
+			{m: 0, timeout: true}, {m: 1, timeout: true}, {m: 3, timeout: true},
+			{m: 1, msgs: []msel{rc2(0), rc2(1), rc2(2)}},
+			{m: 0, msgs: []msel{pp2}}, {m: 1, msgs: []msel{pp2}},
+			{m: 0, msgs: []msel{p2(0), p2(1), p2(2)}}, {m: 1, msgs: []msel{p2(0), p2(1), p2(2)}},
+			{m: 1, msgs: []msel{c2(0), c2(1), c2(2)}},
+			{m: 0, timeout: true}, {m: 3, timeout: true},
+		}
+		before := len(scs)
+		add("n4-staged-one-prepared-A-one-decided-B-byz-leader3-R3-forge", 4, []int64{2}, map[int64]int64{0: 1, 1: 2, 3: 3}, v12, 3, opt{parts: [][][]int{{{0}, {1}, {2}}}})
+		for _, sc := range scs[before:] {
+			sc.prefix = pfx
+		}
+	}
+	{
+		// Staged: round 1 (honest leader 0, value A): everybody prepared A; in variant "decided" member 3 also decided A.
+		// All others timed out into round 2, whose leader (member 1) is Byzantine.
+		A := int64(1)
+		pp1 := msel{MsgPrePrepare, 0, 1, A}
+		pre := func(src int64) msel { return msel{MsgPrepare, src, 1, A} }
+		com := func(src int64) msel { return msel{MsgCommit, src, 1, A} }
+		base := []pstep{
+			{m: 0, msgs: []msel{pp1}}, {m: 2, msgs: []msel{pp1}}, {m: 3, msgs: []msel{pp1}},
+			{m: 0, msgs: []msel{pre(0), pre(2), pre(3)}}, {m: 2, msgs: []msel{pre(0), pre(2), pre(3)}}, {m: 3, msgs: []msel{pre(0), pre(2), pre(3)}},
+		}
+		decided := append(append([]pstep{}, base...), pstep{m: 3, msgs: []msel{com(0), com(2), com(3)}}, pstep{m: 0, timeout: true}, pstep{m: 2, timeout: true})
+		undecided := append(append([]pstep{}, base...), pstep{m: 0, timeout: true}, pstep{m: 2, timeout: true}, pstep{m: 3, timeout: true})
+		for name, pfx := range map[string][]pstep{"n4-staged-all-prepared-A-one-decided-byz-leader2-R2-forge": decided, "n4-staged-all-prepared-A-byz-leader2-R3-forge": undecided} {
+			before := len(scs)
+			R := int64(2)
+			parts := [][][]int{{{0, 1}, {2}}, {{0}, {1}, {2}}}
+			if strings.Contains(name, "R3") {
+				R = 3
+				parts = [][][]int{{{0, 1, 2}}, {{0}, {1, 2}}}
+			}
+			add(name, 4, []int64{1}, map[int64]int64{0: 1, 2: 2, 3: 2}, v12, R, opt{parts: parts})
+			for _, sc := range scs[before:] {
+				sc.prefix = pfx
+			}
+		}
+	}
 	add("n4-one-without-input-R2", 4, nil, map[int64]int64{1: 2, 2: 3, 3: 4}, nil, 2, opt{})
 	add("n4-byz-leader1-R1-noise1", 4, []int64{0}, in4b(), v12, 1, opt{noise: 1, parts: [][][]int{{{0, 1, 2}}, {{0}, {1, 2}}}})
 	add("n3-distinct-R2-noise1", 3, nil, in3(), nil, 2, opt{noise: 1, parts: [][][]int{{{0, 1, 2}}, {{0}, {1, 2}}}})
